@@ -17,10 +17,14 @@ TIERS = {
 RULE = ('case = one pool of 20-30 values built to collide: a small palette of atoms '
         '(numbers equal across bool/int/float, strings, None, MISSING_VALUE), tuples of '
         'one comparable family, plain and symbolic lists/dicts (str and int keys), objects '
-        'of classes A, B(A), C(A)+field, D, a class without symbolic comparison and two '
-        'classes with the same qualified name, nested to depth 3; then mutants of pool '
+        'of classes A, B(A), C(A)+field, D, a class without symbolic comparison, two '
+        'classes with the same qualified name and two of four classes that declare a '
+        'variable-key field next to fixed ones (StrKey() / StrKey(regex), a subclass with an '
+        'extra fixed field, one without symbolic comparison; variable keys given in any order '
+        'among the keyword arguments), nested to depth 3; then mutants of pool '
         'members (equal value of another type, neighbour atom, permuted/dropped/retyped '
-        'dict keys, plain<->symbolic container, other class, longer/shorter list) and '
+        'dict keys, permuted/added variable keys of an object, plain<->symbolic container, '
+        'other class, longer/shorter list) and '
         'equal-but-not-identical twins. pg.eq/ne/lt/gt are called on ALL ordered pairs '
         '(self pairs included), pg.hash on every value, ==/!=/hash() on every object whose '
         'class uses symbolic comparison, all triples are checked on the recorded results, '
@@ -34,7 +38,9 @@ RULE = ('case = one pool of 20-30 values built to collide: a small palette of at
         'inside pg.notify_on_change(False), with skip_notification=True, with '
         'notify_parents=False); the same edit is applied to the plain description, and after '
         'every step the live value and each of its symbolic sub-nodes is compared with a twin '
-        'freshly built from the description (eq both ways, ne, lt both ways, gt, pg.hash, '
+        'freshly built from the description, half of the twins with the dict keys / keyword '
+        'arguments given in a permuted order at every level; object writes include variable '
+        'keys (add, replace, remove, remove and give again) (eq both ways, ne, lt both ways, gt, pg.hash, '
         '==/!=/hash() for opt-in classes); the queries of one step populate the memos for the '
         'next (all nodes or a random subset). At the end the rows eq/lt(live, other) and '
         'eq/lt(twin, other) against a sample of the other pool members must coincide.')
@@ -43,7 +49,9 @@ REQUIRED_COUNTERS = ['pools', 'eq_calls', 'lt_calls', 'hash_calls', 'pairs_eq_tr
                      'triples_eq_premise', 'triples_lt_premise', 'sort_runs', 'sorted_order_checks',
                      'type_rank_checks', 'first_difference_checks', 'history_steps',
                      'history_silent_steps', 'history_twin_checks',
-                     'history_hash_agreement_checks', 'history_row_checks']
+                     'history_hash_agreement_checks', 'history_row_checks',
+                     'pairs_eq_object_key_order', 'pairs_eq_object_key_order_nested',
+                     'history_twins_permuted', 'history_op:Object.rebind[remove+readd]']
 ASSUMPTIONS = [
     'NaN is not generated (don\'t-care); tuples hold primitives of one mutually comparable '
     'family per pool (numbers or strings), as the quantifier says',
@@ -54,6 +62,10 @@ ASSUMPTIONS = [
     'documented behaviour of pg.lt used as oracle besides the laws: the order of types '
     '(MISSING_VALUE, None, numbers, str, list, tuple, dict, objects) and the '
     'first-different-sub-node rule for lists, same-key-sequence dicts and same-class objects',
+    'the order in which the keys of a dict / the variable keys of an object are stored is not '
+    'part of the value (pg.eq ignores it by documentation), so a value built or rebound in '
+    'another key order is a twin; the first-difference rule is applied to objects only when '
+    'both store the same key sequence and that sequence is also the canonical (sorted) one',
     'a triple is reported only when none of its pairs already violates a pair law '
     '(attribution to the smallest witness)',
     'unequal values may hash equally; different-class/same-field collisions are only counted',
@@ -105,8 +117,51 @@ def _make_same_qualname():
 
 
 S1, S2 = _make_same_qualname(), _make_same_qualname()
-CLASSES = {'A': A, 'B': B, 'C': C, 'D': D, 'N': N, 'S1': S1, 'S2': S2}
-FIELDS = {'A': 'xy', 'B': 'xy', 'C': 'xyz', 'D': 'xy', 'N': 'xy', 'S1': 'xy', 'S2': 'xy'}
+
+
+# Classes with variable-key fields next to fixed ones: the variable keys are
+# stored in the order in which they were given / rebound, which is not part of
+# the value (symbolic equality of the attributes ignores it).
+
+@pg.members([('x', T.Any(default=None)), ('y', T.Any(default=None)),
+             (T.StrKey('p.*'), T.Any())])
+class KR(pg.Object):
+  """Fixed fields x, y plus keys matching a regular expression."""
+
+
+@pg.members([('x', T.Any(default=None)), (T.StrKey(), T.Any())])
+class K(pg.Object):
+  """Fixed field x plus any other str key."""
+
+
+class KS(K):
+  """Subclass with an extra fixed field (the variable-key field is inherited)."""
+  z: T.Any() = None
+
+
+class KN(KR):
+  """Variable keys, no symbolic comparison for ==, != and hash()."""
+  use_symbolic_comparison = False
+
+
+CLASSES = {'A': A, 'B': B, 'C': C, 'D': D, 'N': N, 'S1': S1, 'S2': S2,
+           'KR': KR, 'K': K, 'KS': KS, 'KN': KN}
+FIELDS = {'A': 'xy', 'B': 'xy', 'C': 'xyz', 'D': 'xy', 'N': 'xy', 'S1': 'xy', 'S2': 'xy',
+          'KR': 'xy', 'K': 'x', 'KS': 'xz', 'KN': 'xy'}
+# Variable keys used per class. Those of K/KS sort after the fixed fields, those
+# of KR/KN before them (the two readings of "first different sub-node" differ
+# for the latter only).
+DYN = {'KR': ['p1', 'p2', 'p3'], 'KN': ['p1', 'p2', 'p3'],
+       'K': ['z1', 'z2', 'z3'], 'KS': ['z1', 'z2', 'z3']}
+DYN_CLASSES = sorted(DYN)
+
+
+def accepts(cls, f):
+  return f in list(FIELDS[cls]) or f in DYN.get(cls, ())
+
+
+def all_fields(cls):
+  return list(FIELDS[cls]) + DYN.get(cls, [])
 
 NUM_GROUPS = [
     [1, 1.0, True], [0, 0.0, False, -0.0], [2, 2.0], [-1, -1.0], [0.5], [-2],
@@ -122,7 +177,10 @@ INT_KEYS = [0, 1, 2]
 # Descriptions: ['M'] | ['v', prim-or-None] | ['t', [prim...]] | ['l'|'L', [desc...]]
 #               | ['d'|'D', [[key, desc]...]] | ['O', clsname, [[field, desc]...]]
 
-def build(d):
+def build(d, perm=None):
+  """The value of a description. With `perm` (a Random) the keys of dicts and
+  the keyword arguments of objects are given in a permuted order at every
+  level: the same content, stored through a different construction history."""
   k = d[0]
   if k == 'M':
     return MISSING
@@ -131,13 +189,16 @@ def build(d):
   if k == 't':
     return tuple(d[1])
   if k in 'lL':
-    items = [build(x) for x in d[1]]
+    items = [build(x, perm) for x in d[1]]
     return pg.List(items) if k == 'L' else items
+  entries = list(d[1] if k in 'dD' else d[2])
+  if perm is not None and len(entries) > 1 and perm.random() < 0.7:
+    perm.shuffle(entries)
   if k in 'dD':
-    items = {kk: build(x) for kk, x in d[1]}
+    items = {kk: build(x, perm) for kk, x in entries}
     return pg.Dict(items) if k == 'D' else items
   if k == 'O':
-    return CLASSES[d[1]](**{f: build(x) for f, x in d[2]})
+    return CLASSES[d[1]](**{f: build(x, perm) for f, x in entries})
   raise ValueError(d)
 
 
@@ -179,7 +240,8 @@ class Palette:
     self.tuple_family = rng.choice(['num', 'str'])
     self.same_qualname = rng.random() < 0.15
     self.int_keys = rng.random() < 0.5
-    self.classes = ['A', 'B', 'C', 'D', 'N'] + (['S1', 'S2'] if self.same_qualname else [])
+    self.classes = (['A', 'B', 'C', 'D', 'N'] + rng.sample(DYN_CLASSES, 2)
+                    + (['S1', 'S2'] if self.same_qualname else []))
 
   def atom(self, rng, allow_m):
     r = rng.random()
@@ -220,6 +282,11 @@ def gen(rng, pal, depth, allow_m):
                                   for kk in keys]]
   cls = rng.choice(pal.classes)
   fields = [f for f in FIELDS[cls] if rng.random() < 0.7]
+  if cls in DYN:
+    # Variable keys in any order, interleaved with the fixed fields (the order
+    # of the keyword arguments is the order in which they are stored).
+    fields += rng.sample(DYN[cls], rng.choice([0, 1, 2, 2, 3, 3]))
+    rng.shuffle(fields)
   return ['O', cls, [[f, gen(rng, pal, depth - 1, False)] for f in fields]]
 
 
@@ -301,14 +368,34 @@ def mutate(rng, pal, d, allow_m=True):
       items[i] = [items[i][0], pal.atom(rng, allow_m and k == 'd')]
     return [k, items]
   # object
+  dyn = DYN.get(d[1], [])
+  if dyn and r < 0.5:
+    present = [e[0] for e in d[2] if e[0] in dyn]
+    if len(present) >= 2 and rng.random() < 0.8:
+      # the same content, the variable keys given in another order
+      items = d[2][:]
+      if rng.random() < 0.5:
+        items.reverse()
+      else:
+        items = items[1:] + items[:1]
+      return ['O', d[1], items]
+    free = [f for f in dyn if f not in present]
+    if free:
+      items = d[2][:]
+      items.insert(rng.randint(0, len(items)), [rng.choice(free), pal.atom(rng, False)])
+      return ['O', d[1], items]
+  r = rng.random()
   if r < 0.5:
     other = rng.choice([c for c in pal.classes if c != d[1]])
-    return ['O', other, [[f, x] for f, x in d[2] if f in FIELDS[other]]]
+    if dyn and rng.random() < 0.5:
+      others = [c for c in pal.classes if c != d[1] and DYN.get(c) == dyn]
+      other = rng.choice(others) if others else other
+    return ['O', other, [[f, x] for f, x in d[2] if accepts(other, f)]]
   if r < 0.7 and d[2]:
     return ['O', d[1], d[2][:-1]]
   if r < 0.85:
     return ['d', [[f, x] for f, x in d[2]]]
-  f = rng.choice(FIELDS[d[1]])
+  f = rng.choice(all_fields(d[1]))
   return ['O', d[1], [e for e in d[2] if e[0] != f] + [[f, pal.atom(rng, False)]]]
 
 
@@ -391,8 +478,12 @@ def flags(a, b, out):
       flags(x, y, out)
   elif isinstance(a, pg.Object) and isinstance(b, pg.Object):
     if type(a) is type(b):
-      for (_, x), (_, y) in zip(a.sym_items(), b.sym_items()):
-        flags(x, y, out)
+      ka, kb = list(a.sym_keys()), list(b.sym_keys())
+      if ka != kb and len(ka) == len(kb) and set(ka) == set(kb):
+        out.add('object-key-order')       # variable keys stored in another order
+      for kk in ka:
+        if kk in kb:
+          flags(a.sym_getattr(kk), b.sym_getattr(kk), out)
     elif type(a).__qualname__ == type(b).__qualname__:
       out.add('same-qualname-classes')
 
@@ -410,8 +501,8 @@ def same(x, y):
     return len(x) == len(y) and all(same(p, q) for p, q in zip(x, y))
   if kx == 'dict':
     return set(x.keys()) == set(y.keys()) and all(same(x[k], y[k]) for k in x.keys())
-  return type(x) is type(y) and all(
-      same(p, q) for (_, p), (_, q) in zip(x.sym_items(), y.sym_items()))
+  return (type(x) is type(y) and set(x.sym_keys()) == set(y.sym_keys()) and all(
+      same(p, y.sym_getattr(kk)) for kk, p in x.sym_items()))
 
 
 def locus(a, b):
@@ -426,7 +517,11 @@ def locus(a, b):
           break
         pairs.append((a[ka], b[kb]))
     elif isinstance(a, pg.Object) and type(a) is type(b):
-      pairs = [(x, y) for (_, x), (_, y) in zip(a.sym_items(), b.sym_items())]
+      pairs = []
+      for (ka, x), (kb, y) in zip(a.sym_items(), b.sym_items()):
+        if ka != kb:
+          break
+        pairs.append((x, y))
     else:
       return a, b
     for x, y in pairs:
@@ -441,8 +536,9 @@ MECH_KIND = {'MISSING': 'MISSING', 'None': 'None', 'bool': 'number', 'int': 'num
              'float': 'number', 'str': 'str', 'list': 'list', 'List': 'list',
              'tuple': 'tuple', 'dict': 'dict', 'Dict': 'dict', 'object': 'object'}
 MECH_ORDER = ['MISSING', 'None', 'number', 'str', 'list', 'tuple', 'dict', 'object']
-RAISE_PREF = ['same-qualname-classes', 'dict-mixed-key-types', 'dict-key-order']
-LAW_PREF = ['dict-key-order']
+RAISE_PREF = ['same-qualname-classes', 'dict-mixed-key-types', 'dict-key-order',
+              'object-key-order']
+LAW_PREF = ['dict-key-order', 'object-key-order']
 
 
 class Pool:
@@ -469,9 +565,13 @@ class Pool:
     for a in range(len(idx)):
       for b in range(a + 1, len(idx)):
         fl |= self.flags(idx[a], idx[b])
-    for name in (RAISE_PREF if raising else LAW_PREF):
-      if name in fl:
-        return name
+    if raising:
+      for name in RAISE_PREF:
+        if name in fl:
+          return name
+    elif fl & set(LAW_PREF):
+      # stored key orders differ (of dicts, of the variable keys of objects, or both)
+      return '+'.join(name for name in LAW_PREF if name in fl)
     if len(idx) == 2:
       ks = [MECH_KIND[kind(v)] for v in locus(self.vals[idx[0]], self.vals[idx[1]])]
     else:
@@ -616,11 +716,37 @@ def gen_hist_step(rng, pal, root_desc):
 
   if kind_ == 'Object':
     items = nd[2]
-    f = rng.choice(FIELDS[nd[1]])
+    dyn = DYN.get(nd[1], [])
+    f = rng.choice(all_fields(nd[1]) + dyn)       # variable keys twice as often
     vd = val()
+    # A variable key that is new is stored after the present ones (_dset appends);
+    # MISSING_VALUE resets a fixed field to its default and removes a variable key.
     add_rebind('Object.rebind', f, vd, lambda: _dset(items, f, vd))
     if any(e[0] == f for e in items):
       add_rebind('Object.rebind[reset]', f, 'MISSING', lambda: _ddel(items, f))
+    present = [e for e in items if e[0] in dyn]
+    if len(present) >= 2:
+      # The same content through another history: a variable key is removed and
+      # given again with the value it had (two rebinds).
+      e0 = rng.choice(present[:-1])
+      old = copy.deepcopy(e0[1])
+
+      def model_readd():
+        _ddel(items, e0[0])
+        items.append([e0[0], old])
+      j2 = rng.randint(sym_from, len(path))
+      rel2 = list(path[j2:]) + [e0[0]]
+      api2 = rng.choice(['rebind', 'sym_rebind'])
+
+      def live_readd(root, **opts):
+        anchor = navigate(root, path[:j2])
+        getattr(anchor, api2)({pg.KeyPath(list(rel2)): MISSING},
+                              raise_on_no_change=False, **opts)
+        getattr(anchor, api2)({pg.KeyPath(list(rel2)): build(old)},
+                              raise_on_no_change=False, **opts)
+      add('Object.rebind[remove+readd]', 'rebind',
+          f'{api2} at {list(path[:j2])} of {rel2} := MISSING_VALUE, then := {show(old)}',
+          model_readd, live_readd)
 
     def setattr_(n):
       with pg.allow_writable_accessors(True):
@@ -819,12 +945,18 @@ def run_histories(ctx, P, pal):
       """Compares the live value and its symbolic sub-nodes with a fresh twin;
       returns (twin, found a violation)."""
       ctx.label = 'build-twin'
-      twin = build(desc)
+      # A twin has the same content; half of the twins were given their dict keys /
+      # keyword arguments in another order than the live value stores them.
+      permuted = rng.random() < 0.5
+      twin = build(desc, rng if permuted else None)
       ctx.label = None
+      if permuted:
+        c['history_twins_permuted'] += 1
       where = [([], None)] + [(p, sf) for p, _, sf in sites(desc) if sf is not None and p]
       if subset:
         where = [w for w in where if rng.random() < 0.5] or where[:1]
       seen_clauses = set()
+      same_order = [None]
       for p, _ in where:
         ctx.label = 'navigate'
         n, t = navigate(live, p), navigate(twin, p)
@@ -833,10 +965,28 @@ def run_histories(ctx, P, pal):
           if clause in seen_clauses:
             continue
           seen_clauses.add(clause)
-          ctx.violation(clause, mech, f'{detail}; node at {list(p)} of the value now '
+          m = mech
+          if permuted:
+            # Does the same law fail against a twin that stores its keys in the
+            # order of the live value? If not, the stored order decides.
+            if same_order[0] is None:
+              ctx.label = 'build-twin'
+              same_order[0] = build(desc)
+              ctx.label = None
+            t2 = navigate(same_order[0], p)
+            if clause not in [cl for cl, _ in twin_laws(n, t2, c, full=not p)]:
+              fl = set()
+              flags(n, t, fl)
+              m = 'history/' + ('+'.join(x for x in LAW_PREF if x in fl) or 'key-order')
+          ctx.violation(clause, m, f'{detail}; node at {list(p)} of the value now '
                         f'described by {show(desc)[:300]}',
                         {'initial': P.shown[idx], 'history': trace[-8:],
                          'content': show(desc), 'node': list(p)})
+      if seen_clauses and permuted:
+        # the value to continue from stores its keys in the order of the description
+        ctx.label = 'build-twin'
+        twin = same_order[0] if same_order[0] is not None else build(desc)
+        ctx.label = None
       return twin, bool(seen_clauses)
 
     check('history/initial', False)
@@ -872,7 +1022,9 @@ def run_histories(ctx, P, pal):
         pending = []
     # the row of the mutated value against the rest of the pool
     ctx.label = 'build-twin'
-    twin = build(desc)
+    row_permuted = rng.random() < 0.5
+    twin = build(desc, rng if row_permuted else None)
+    same_order = build(desc) if row_permuted else twin
     ctx.label = None
     done = set()
     others = [o for o in range(P.n) if o != idx]
@@ -891,7 +1043,13 @@ def run_histories(ctx, P, pal):
           c['history_row_checks'] += 1
           if r1 != r2 and clause not in done:
             done.add(clause)
-            ctx.violation(clause, mech, f'live and fresh are pg.eq but pg.{name} against '
+            m = mech
+            if row_permuted and call(fn, same_order if x is live else x,
+                                     same_order if y is live else y) == r1:
+              fl = set()
+              flags(live, twin, fl)
+              m = 'history/' + ('+'.join(z for z in LAW_PREF if z in fl) or 'key-order')
+            ctx.violation(clause, m, f'live and fresh are pg.eq but pg.{name} against '
                           f'{P.shown[o][:200]} gives {r1} for the live value and {r2} for the '
                           f'fresh one (live first: {x is live})',
                           {'initial': P.shown[idx], 'history': trace[-8:],
@@ -1014,6 +1172,10 @@ def run_case(ctx, i):
                  f'are not pg.eq: {SH[a]}')
       if ea and V[a] is not V[b]:
         c['pairs_eq_true_nonidentical'] += 1
+        if 'object-key-order' in P.flags(a, b):
+          c['pairs_eq_object_key_order'] += 1
+          if K[a] != 'object':
+            c['pairs_eq_object_key_order_nested'] += 1
         if K[a] != K[b]:
           collide = True
       if ea and HS[a] is not None and HS[b] is not None:
@@ -1217,6 +1379,12 @@ def first_difference(a, b):
     xs, ys = [a[k] for k in ka], [b[k] for k in kb]
     what = 'dicts with the same key sequence'
   elif isinstance(a, pg.Object) and type(a) is type(b):
+    ka, kb = list(a.sym_keys()), list(b.sym_keys())
+    # Fixed fields come in field order; for variable keys the documentation does
+    # not say whether they are walked in stored or in a canonical order: as for
+    # dicts the rule is applied only where both readings coincide.
+    if ka != kb or ka != sorted(ka):
+      return None
     xs, ys = [v for _, v in a.sym_items()], [v for _, v in b.sym_items()]
     what = 'objects of one class'
   else:
